@@ -270,7 +270,7 @@ def run(seed, tier, driver):
         full = dict(S.DEFAULT_CFG); full.update(conf)
         pool = SG.message_pool(full['remote_as'])
         opens = [(l, b) for l, b in pool if l in ('open_ok', 'open_nocaps', 'open_hold0', 'open_hold3', 'open_hold65535',
-                                                  'open_hold4', 'open_hold8', 'open_hold20')]
+                                                  'open_hold4', 'open_hold8', 'open_hold20', 'open_unknown_caps')]
         follow = [(l, b) for l, b in pool if not l.startswith('open') and not l.startswith('bad_')]
         if tier == 'quick':
             opens = opens[:1] + r.sample(opens[1:], 3)
